@@ -34,14 +34,15 @@ INVARIANT_TEXT = (
 
 
 def bounds_text(tier):
-    nb, nc = limits(tier)
+    nb, nc, ng = limits(tier)
     return ("capacity 8; family A (8-aligned keys, full invariant): all states; family B (arbitrary keys): at most %d non-EMPTY slots (live or DELETED, at symbolic positions); "
-            "rehash on epoch change: at most %d live entries at symbolic positions, any number of tombstones; underflow rehash (entries < 2) and overflow rehash (entries == 6 -> capacity 16): all states of the invariant; "
-            "probing: at most 8 iterations (a longer probe is reported as non-termination)" % (nb, nc))
+            "rehash on epoch change: 8-aligned keys, invariant states with at most %d live entries; arbitrary keys rewritten in place (chains broken) with at most %d live entries, tombstones anywhere; underflow rehash (entries < 2) and overflow rehash (entries == 6 -> capacity 16): all states of the invariant; "
+            "probing: at most 8 iterations (a longer probe is reported as non-termination)" % (nb, nc, ng))
 
 
 def limits(tier):
-    return (4, 3) if tier == "quick" else (7, 6)
+    """(non-EMPTY slots in family B, live entries in the aligned epoch rehash, live entries in the arbitrary-key epoch rehash)"""
+    return (4, 3, 1) if tier == "quick" else (7, 6, 2)
 
 
 def live(k):
@@ -87,7 +88,7 @@ def inv_parts(K, n, aligned):
 
 
 def harnesses(E, tier):
-    NB, NC = limits(tier)
+    NB, NC, NG = limits(tier)
     ins = [("k%d" % i, "usize") for i in range(CAP)] + [("v%d" % i, "usize") for i in range(CAP)] + \
           [("entries", "usize"), ("epoch", "usize"), ("rt", "usize"), ("key", "usize"), ("val", "usize")]
 
@@ -290,33 +291,50 @@ def harnesses(E, tier):
                     lambda I, op=op: z3.And(pre_inv(I, False), arg_ok(I, False), I["epoch"] == I["rt"], rng_ops[op](I), ule(cnt([k != 0 for k in KV(I)[0]]), NB)),
                     sym(op), nat(op), specB, twB, samples(op), need=needB, max_steps=6000, depth=8, qfbv=True))
 
-        # family C: rehash because the collector ran (keys rewritten in place: chains and tombstone placement arbitrary)
+        # family C: rehash because the collector ran.  With 8-aligned keys at capacity 8 every key keeps home 0, so the states the
+        # collector leaves behind are exactly the states of the invariant; the table is rebuilt all the same.
         def preC(I, op=op):
-            K, _ = KV(I)
-            P = inv_parts(K, I["entries"], False)
-            return z3.And(P["I2 entries == live slots"], P["I3 live keys distinct"], ule(I["entries"], NC if op != "insert" else min(NC, 5)),
-                          z3.And(*[z3.Implies(live(k), k & 7 == 0) for k in K]), arg_ok(I, True), I["epoch"] != I["rt"])
+            return z3.And(pre_inv(I, True), ule(I["entries"], NC if op != "insert" else min(NC, 5)), arg_ok(I, True), I["epoch"] != I["rt"])
+
+        def rehashed(I, O, op=op):
+            done = z3.And(O["epoch"] == I["rt"], *[k != 1 for k in O["keys"]])
+            # get() returns before looking at the epoch when the table has no entry
+            return [("table not rebuilt (tombstones dropped, epoch recorded) for the new epoch", z3.Implies(I["entries"] != 0, done) if op == "get" else done)]
 
         def specC(I, O, op=op):
             b = base_spec(op, I, O, "%s after a collection" % op)
             if b:
                 return b
-            c = functional(op, I, O) + post_inv(I, O, True)
-            c.append(("capacity changed", O["capacity"] == CAP))
-            if op == "get":
-                c.append(("table not rehashed for the new epoch", z3.Implies(I["entries"] != 0, z3.And(O["epoch"] == I["rt"], *[k != 1 for k in O["keys"]]))))
-            else:
-                c.append(("table not rehashed for the new epoch", O["epoch"] == I["rt"]))
-            return c
+            return functional(op, I, O) + post_inv(I, O, True) + [("capacity changed", O["capacity"] == CAP)] + rehashed(I, O)
 
         def twC(I, O, op=op):
             if O["panic"] or O["hang"]:
                 return []
             K, _ = KV(I)
-            return [("rehash drops tombstones", z3.And(I["entries"] != 0, z3.Or(*[k == 1 for k in K]))),
-                    ("a live key sits behind an EMPTY slot before the rehash (moved object)", z3.And(K[0] == 0, live(K[1]), present(K, I["key"])))]
+            return [("rehash drops tombstones", z3.And(I["entries"] != 0, z3.Or(*[k == 1 for k in K]))), ("key present", present(K, I["key"]))]
         hs.append(H("table-C/epoch/" + op, "ObjectHashMap::rehash via maybe_rehash_on_%s (epoch changed) + with_capacity + capacity_for_entries" % op, ins, preC,
-                    sym(op), nat(op), specC, twC, samples(op), need=["rehash drops tombstones", "a live key sits behind an EMPTY slot before the rehash (moved object)"],
+                    sym(op), nat(op), specC, twC, samples(op), need=["rehash drops tombstones", "key present"], max_steps=30000, depth=8, qfbv=True))
+
+        # the same with arbitrary keys: the collector rewrote the live keys in place, so they no longer sit on their probe chains
+        def preG(I, op=op):
+            K, _ = KV(I)
+            P = inv_parts(K, I["entries"], False)
+            return z3.And(P["I2 entries == live slots"], P["I3 live keys distinct"], P["I6 an EMPTY slot exists"], ule(I["entries"], NG), arg_ok(I, False), I["epoch"] != I["rt"])
+
+        def specG(I, O, op=op):
+            b = base_spec(op, I, O, "%s after a collection (arbitrary keys)" % op)
+            if b:
+                return b
+            return functional(op, I, O) + post_inv(I, O, False) + [("capacity changed", O["capacity"] == CAP)] + rehashed(I, O)
+
+        def twG(I, O, op=op):
+            if O["panic"] or O["hang"]:
+                return []
+            K, _ = KV(I)
+            return [("the key sits behind an EMPTY home slot before the rehash (moved object)",
+                     z3.Or(*[z3.And(K[i] == I["key"], K[j] == 0, (I["key"] & 7) == j) for i in range(CAP) for j in range(CAP) if i != j]))]
+        hs.append(H("table-C/epoch-any/" + op, "ObjectHashMap::rehash via maybe_rehash_on_%s (epoch changed), arbitrary keys" % op, ins, preG,
+                    sym(op), nat(op), specG, twG, samples(op), need=["the key sits behind an EMPTY home slot before the rehash (moved object)"],
                     max_steps=30000, depth=8, qfbv=True))
 
     # underflow: remove with fewer than capacity/4 entries rebuilds the table (same capacity)
